@@ -51,12 +51,26 @@ func WithDebug(f func(format string, arg ...any)) Option {
 func NewConn(ctx context.Context, conn net.Conn, options ...Option) (outConn *Conn, err error) {
 	defer func() { convertErrorsToAlerts(conn, err) }()
 	done := make(chan struct{})
-	defer close(done)
+	watcherDone := make(chan struct{})
+	var expired bool
 	go func() {
+		defer close(watcherDone)
 		select {
 		case <-done:
 		case <-ctx.Done():
+			expired = true
 			conn.SetDeadline(time.Now())
+		}
+	}()
+	defer func() {
+		// Wait for the watcher so that it can never touch the
+		// connection's deadline after NewConn has returned. If it did
+		// interrupt the connection, ctx ended before the ClientHello
+		// was processed and the connection is not usable.
+		close(done)
+		<-watcherDone
+		if expired && err == nil {
+			outConn, err = nil, ctx.Err()
 		}
 	}()
 	record, err := readRecord(conn)
